@@ -38,7 +38,8 @@ impl Acc {
   pub fn count(&mut self, k: &'static str, n: u64) { *self.counters.entry(k).or_insert(0) += n; }
   pub fn fault(&mut self, k: &'static str, n: u64) { if n > 0 { *self.faults.entry(k).or_insert(0) += n; } }
   pub fn probe(&mut self, k: &'static str) { *self.probes.entry(k).or_insert(0) += 1; }
-  pub fn probe_n(&mut self, k: &'static str, n: u64) { *self.probes.entry(k).or_insert(0) += n; }
+  /// adds to a probe; a zero does not create an undeclared probe (declared ones report their zero)
+  pub fn probe_n(&mut self, k: &'static str, n: u64) { if n > 0 || self.probes.contains_key(k) { *self.probes.entry(k).or_insert(0) += n; } }
   pub fn declare_probe(&mut self, k: &'static str) { self.probes.entry(k).or_insert(0); }
   pub fn declare_fault(&mut self, k: &'static str) { self.faults.entry(k).or_insert(0); }
   fn merge(&mut self, o: &Acc) {
